@@ -127,6 +127,7 @@ class Config:
         self.merge_calls = set()     # qualified names whose call outcomes are merged (pure, void)
         self.inline_native = set()   # ids of live callables executed natively on concrete args
         self.class_hooks = {}        # live class -> constructor stub
+        self.classmethod_stubs = {}  # (live class, method name) -> stub(interp, *args)
 
     def stub(self, live):
         def deco(f):
@@ -649,6 +650,12 @@ class Interp:
     def call(self, f, args, kwargs, node=None):
         cfg = self.cfg
         if isinstance(f, BoundMethod):
+            if isinstance(f.recv, type) and cfg.classmethod_stubs:
+                nm = getattr(f.func, "__name__", None)
+                for k in f.recv.__mro__:
+                    cs = cfg.classmethod_stubs.get((k, nm))
+                    if cs is not None:
+                        return cs(self, *args, **kwargs)
             return self.call(f.func, [f.recv] + list(args), kwargs, node)
         if isinstance(f, Closure):
             return self.call_closure(f, args, kwargs)
@@ -660,6 +667,10 @@ class Interp:
         st = cfg.stubs.get(id(f))
         if st is not None and st[0] is f:
             return st[1](self, *args, **kwargs)
+        if isinstance(f, (types.MethodType, types.BuiltinMethodType)) and isinstance(getattr(f, "__self__", None), type):
+            cs = cfg.classmethod_stubs.get((f.__self__, f.__name__))
+            if cs is not None:
+                return cs(self, *args, **kwargs)
         if isinstance(f, types.MethodType):
             return self.call(f.__func__, [self.wrap_live(f.__self__)] + list(args), kwargs, node)
         if isinstance(f, types.FunctionType):
